@@ -5,8 +5,9 @@ open ShVerif ShVerif.L3 ShVerif.Drv.L3
 /-- ops: `quote s` model of QuoteMeta; `hasmeta p` model of HasMeta; `unescape p`;
     `specquote m s alpha n`: which strings ≤ n over alpha (and s itself, listed last) the pattern
     QuoteMeta(s) must match according to the property: exactly s;
-    `specsingle m p alpha n`: reference semantics of a pattern without metacharacters
-    (`nometa` guards the precondition). -/
+    `refquote`: the reference semantics of QuoteMeta(s) on the same strings;
+    `specsingle m p`: the only string a pattern without metacharacters may match (the harness
+    answers `only <u>` when the real matcher accepts nothing but u, `also <t>` otherwise). -/
 def handle (args : List String) : String :=
   match args with
   | ["quote", s] =>
@@ -29,12 +30,11 @@ def handle (args : List String) : String :=
     match parseMode m, runesOfHex s, runesOfHex alpha, n.toNat? with
     | some m, some s, some alpha, some n => bits (globMatch m (quoteMeta s)) (enumStrs alpha n ++ [s])
     | _, _, _, _ => "bad-op"
-  | ["specsingle", m, p, alpha, n] =>
-    match parseMode m, runesOfHex p, runesOfHex alpha, n.toNat? with
-    | some _, some p, some alpha, some n =>
-      if hasMeta p then "hasmeta"
-      else bits (fun t => t == unescape p) (enumStrs alpha n ++ [unescape p])
-    | _, _, _, _ => "bad-op"
+  | ["specsingle", m, p] =>
+    match parseMode m, runesOfHex p with
+    | some _, some p =>
+      if hasMeta p then "hasmeta" else "only " ++ hexOfRunes (unescape p)
+    | _, _ => "bad-op"
   | _ => "bad-op"
 
 end ShVerif.Drv.C18
